@@ -232,3 +232,8 @@ impl core::ops::Deref for Zeroizing<Vec<u8>> {
         ensures r@ == self@
     { &self.v }
 }
+impl core::ops::DerefMut for Zeroizing<Vec<u8>> {
+    fn deref_mut(&mut self) -> (r: &mut Vec<u8>)
+        ensures *r == old(self).v, *final(r) == final(self).v
+    { &mut self.v }
+}
